@@ -22,7 +22,7 @@ import machine_h as mh
 import cli
 
 IMPORTS = mh.IMPORTS
-KINDS = ["ok", "fail0", "failk", "done", "missing", "badbuild", "noadapter"]
+KINDS = ["ok", "fail0", "failk", "done", "missing", "badbuild", "noadapter", "nodir"]
 
 
 def spec_of(i, kind, rng):
@@ -35,6 +35,10 @@ def spec_of(i, kind, rng):
         kw.update(script=["ok"] * k + [rng.choice(["exit", "unp"])] * 6, mode="inv")
     elif kind == "missing":
         kw.update(exe="exeM", exe_path="/missing", exe_file="exe0", script=["127"] * 12)   # same file name as the working one
+    elif kind == "nodir":
+        # the suite's location does not exist: starting the process raises ENOENT although the executable (exe0, the one
+        # the working runs use) is there
+        kw.update(script=["enoent"] * 12, suite_loc="/gone")
     elif kind == "badbuild":
         kw.update(exe="exeB", exe_build="make bad")
     elif kind == "noadapter":
@@ -263,8 +267,8 @@ def run(chk):
                                                                                        mtrace[:40], mh.model_states(m[1]), bool(m[2])))
         chk.coverage["traces_validated_against_impl"] = len(res)
         chk.count("disagreements", nd)
-    chk.coverage["exhaustive"] = "all 7^2 + 7^3 assignments of failure kinds to 2 and 3 runs (both tiers)"
-    chk.coverage["rule"] = ("assignments of 7 kinds (ok, fails from the start, fails after k successes, complete earlier, missing binary, failing "
+    chk.coverage["exhaustive"] = "all 8^2 + 8^3 assignments of failure kinds to 2 and 3 runs (thorough tier; a sample of 392 of them in the quick tier)"
+    chk.coverage["rule"] = ("assignments of 8 kinds (ok, fails from the start, fails after k successes, complete earlier, missing binary, nonexistent suite location (ENOENT when starting), failing "
                             "build, unknown adapter) to 2-5 runs x scheduler x -f; distinct = assignment")
     chk.assumptions += ["in-process sessions script process and build results; the CLI sessions use a real fake-harness process"]
     return chk.finish()
